@@ -651,7 +651,10 @@ ROUTES = ["ctor", "data", "ctor.complement()", "data.complement()", "data-inf", 
 # ==========================================================================================
 # section: histories - an answer depends on the disk's current data only (mc/diffhist.py)
 # ==========================================================================================
-HIST_OPS = ["query", "move0", "move1", "complement", "rebuild", "index0"]
+HIST_OPS = ["query", "move0", "move1", "complement", "rebuild", "index0", "setitem-0", "setitem-last", "setitem-all"]
+# setitem-*: in-place item assignment of another disk (case["donor"]) into the object: disks[0] = donor, disks[-1] = donor
+# (composites only) and disks[...] = donor (every member; also defined for a single disk).  These write into proj_data
+# without replacing the array, so anything remembered per data array is stale afterwards.
 HIST_MATS = [[[1 + 0j, 1j], [0j, 1 + 0j]], [[2 + 0j, 1 + 0j], [1j, 1 + 0j]]]     # a translation and a loxodromic-type map
 
 
@@ -668,6 +671,7 @@ def case_history(case):
     specs, ops = case["disks"], case["ops"]
     ds = [build_disk(sp) for sp in specs]
     d = ds[0] if len(ds) == 1 else CP1Disk(np.array([np.asarray(x.proj_data) for x in ds]))
+    donor = build_disk(case["donor"]) if case.get("donor") else None
     v, t = [], 1
 
     def ask(obj):
@@ -676,10 +680,38 @@ def case_history(case):
             ok, r = attempt([], nm, f)
             out.append((nm, r if ok else "raised"))
         return out
-    for op in ops:
+    def differential(obj, done):
+        # every query of the object against the same query of a fresh disk built from a copy of the current data
+        fresh = CP1Disk(np.array(obj.proj_data))
+        n = 0
+        for (nm, got), (_, want) in zip(ask(obj), ask(fresh)):
+            n += 2
+            if isinstance(got, str) or isinstance(want, str):
+                same = isinstance(got, str) and isinstance(want, str)
+            else:
+                same = diffhist.same_result(diffhist.flatten_result(got), diffhist.flatten_result(want), nm)
+            if not same:
+                add(v, "history/%s/after-%s" % (nm, done[-1] if done else "construct"),
+                    "disk(s) %r after %r: %s = %r, on a fresh disk with the same data %r" % (specs, done, nm, got, want))
+                break
+        return n
+    for k, op in enumerate(ops):
         t += 1
         if op == "query":
-            ask(d)
+            # a query in the middle of a history is held to the same standard as the final one
+            prev = [o for o in ops[:k] if o != "query"]
+            t += differential(d, prev)
+            if v:
+                return {"v": v, "t": t, "o": "%d|%s|%d" % (len(specs), "-".join(ops), len(v)), "nt": True}
+        elif op.startswith("setitem"):
+            if donor is None or (op != "setitem-all" and len(d.shape) == 0):
+                return {"v": [], "t": t, "o": "n/a", "nt": False}
+            if op == "setitem-0":
+                d[0] = donor
+            elif op == "setitem-last":
+                d[-1] = donor
+            else:
+                d[...] = donor
         elif op in ("move0", "move1"):
             d = projective.Transformation(np.array(HIST_MATS[int(op[-1])])) @ d
         elif op == "complement":
@@ -692,17 +724,7 @@ def case_history(case):
             d = d[0]
     if type(d) is not CP1Disk:
         return {"v": [{"key": "history/type", "msg": "after %r the object is a %s" % (ops, type(d).__name__)}], "t": t}
-    fresh = CP1Disk(np.array(d.proj_data))
-    for (nm, got), (_, want) in zip(ask(d), ask(fresh)):
-        t += 2
-        if isinstance(got, str) or isinstance(want, str):
-            same = isinstance(got, str) and isinstance(want, str)
-        else:
-            same = diffhist.same_result(diffhist.flatten_result(got), diffhist.flatten_result(want), nm)
-        if not same:
-            add(v, "history/%s/after-%s" % (nm, ops[-1] if ops else "construct"),
-                "disk(s) %r after %r: %s = %r, on a fresh disk with the same data %r" % (specs, ops, nm, got, want))
-            break
+    t += differential(d, [o for o in ops if o != "query"] or ops)
     return {"v": v, "t": t, "o": "%d|%s|%d" % (len(specs), "-".join(ops), len(v)), "nt": len(ops) > 0}
 
 
@@ -711,12 +733,14 @@ def history_cases(seed):
             if "query" in x[:-1] and x[-1] != "query"]
     specs = mobius_disks(seed, True)
     picks = [specs[i % len(specs)] for i in (0, 3, 7)]
-    roots = [[picks[0]], [picks[1]], [picks[0], picks[2]]]
+    roots = [[picks[0]], [picks[1]], [picks[0], picks[2]], [picks[2], picks[1], picks[0]]]
+    # the disk assigned by the setitem ops: the first spec (in a fixed stride through the list) that is none of the roots'
+    donor = next(specs[i % len(specs)] for i in range(11, 11 + len(specs)) if specs[i % len(specs)] not in picks)
     for r in roots:
         for ops in seqs:
-            if "index0" in ops and len(r) == 1:
+            if len(r) == 1 and any(o in ("index0", "setitem-0", "setitem-last") for o in ops):
                 continue
-            yield {"disks": r, "ops": ops}
+            yield {"disks": r, "ops": ops, "donor": donor}
 
 
 def _frac(x):
@@ -1053,7 +1077,9 @@ def run(ctx):
     if on("histories"):
         ctx.product("histories", "checks.c20:case_history", list(history_cases(seed)), chunk=16,
                     domains={"ops": HIST_OPS, "sequences": "all op sequences of length 2..3 with a query before the last (non-query) op",
-                             "roots": "two single disks and one composite (2,) disk",
+                             "roots": "two single disks, one composite (2,) disk and one composite (3,) disk",
+                             "setitem": "disks[0] = donor, disks[-1] = donor (composites), disks[...] = donor (all roots); donor = one more disk of the alphabet",
+                             "queries": "every 'query' op and the final state are compared with the oracle",
                              "oracle": "the same query on a fresh CP1Disk built from the current data (mc/diffhist.py)"})
     if on("moebius") and not q:
         # thorough: products of two alphabet matrices (Gaussian-integer entries of modulus <= 2,
